@@ -67,11 +67,14 @@ def build(tree, layers_spec, limits=None, logx=False, logy=False, loglog=False, 
     ci = tree.cls(LAYER_Q)
     ev0 = ModelEval(tree, tree.method(ci, "__init__"), {}, hooks)
     layers = []
+    by_tag = {}
     for tag, op, *more in layers_spec:
         opts = {"operation": op} if op else {}
         if more:
             opts.update(more[0])
-        layers.append(ev0.instantiate(ci, [ArrTok(tag, "g", (5,), tag.lower())], opts, None))
+        if tag not in by_tag:
+            by_tag[tag] = ArrTok(tag, "g", (5,), tag.lower())          # one Array OBJECT per tag: the same tag twice = the same object in two layers
+        layers.append(ev0.instantiate(ci, [by_tag[tag]], opts, None))
     if reuse is not None:
         layers = reuse
     rec.layers = layers
@@ -160,7 +163,10 @@ def check_hist2d(run, tree, aspects=("limits", "layers")):
     # ------------------------------------------------------------------ axis separation + layers
     for label, spec, logx, logy, call_op in ((("two layers (mean, sum)", [("RHO", "mean"), ("TEMP", None)], False, True, "sum"), ("no layer: counts", [], True, False, "sum"),
                                              ("layer-level sum against call-level mean", [("RHO", None), ("TEMP", "sum")], False, False, "mean"),
-                                             ("three layers (sum, mean, sum)", [("RHO", "sum"), ("TEMP", "mean"), ("PRES", None)], False, False, "sum")) if "layers" in aspects else ()):
+                                             ("three layers (sum, mean, sum)", [("RHO", "sum"), ("TEMP", "mean"), ("PRES", None)], False, False, "sum"),
+                                             # the SAME Array object given twice, with different reductions: each layer has its own slot and its own reduction
+                                             ("the same Array as a mean layer and as a sum layer", [("RHO", "mean"), ("RHO", "sum")], False, False, "sum"),
+                                             ("the same Array as two mean layers", [("RHO", "mean"), ("RHO", "mean")], False, False, "sum")) if "layers" in aspects else ()):
         construct = "%s::layers[%s]" % (H2D, label)
         try:
             try:
